@@ -34,6 +34,11 @@ BAD = {"dateTime": ["not-a-date", "2020-01-01", "01/02/2020 10:00"], "datetime":
        "duration": ["xyz", "5 minutes"]}
 
 
+XSI = "http://www.w3.org/2001/XMLSchema-instance"
+DECOR = [("xsi:nil=true", {"{%s}nil" % XSI: "true"}), ("xsi:nil=1", {"{%s}nil" % XSI: "1"}), ("xsi:type", {"{%s}type" % XSI: "xs:string"}),
+         ("a foreign attribute", {"{urn:example:verif}note": "x"})]
+
+
 def base_type(typ):
     if isinstance(typ, type):
         return None
@@ -233,6 +238,19 @@ def run_case(case, ctx):
             return
         if not isinstance(r[1], NotValid) and not type(r[1]).__name__ in ("MustValueError", "OutsideCardinality", "ShouldValueError"):
             hit("rejected_by_non_validation_exception:" + type(r[1]).__name__)
+        # the same violation on an element that also carries attributes validation has no table entry for (xsi:nil, xsi:type, a foreign
+        # attribute): none of them waives a declared constraint, neither on the element itself nor for what is below it
+        for dname, dattrs in DECOR:
+            inst = make()
+            inst.extension_attributes = dict(inst.extension_attributes or {}, **dattrs)
+            hit("reject_direction_decorated")
+            sigs.append(sig + ["root+" + dname])
+            r = validate(inst)
+            if r[0] == "ok":
+                viol.append({"key": "C13/violated-constraint-accepted-on-decorated-element:" + sig[2],
+                             "what": "%s %s on an element that also carries %s: valid_instance returned %r" % (case["id"], what, dname, r[1]),
+                             "detail": {"xml": _xml(inst)}})
+                break
         for (pcls, member, is_list) in positions:
             try:
                 p = minimal(pcls, 3)
@@ -248,6 +266,16 @@ def run_case(case, ctx):
             if pr[0] == "ok":
                 viol.append({"key": "C13/violated-constraint-accepted-when-nested:" + sig[2],
                              "what": "%s %s as %s of %s: valid_instance returned %r" % (case["id"], what, member, pcls.__name__, pr[1]),
+                             "detail": {"xml": _xml(p)}})
+                continue
+            dname, dattrs = DECOR[len(sigs) % len(DECOR)]
+            p.extension_attributes = dict(p.extension_attributes or {}, **dattrs)
+            pr = validate(p)
+            hit("reject_direction_decorated")
+            sigs.append(sig + ["under:" + pcls.__name__ + "." + member + "+" + dname])
+            if pr[0] == "ok":
+                viol.append({"key": "C13/violated-constraint-accepted-below-decorated-element:" + sig[2],
+                             "what": "%s %s as %s of a %s that carries %s: valid_instance returned %r" % (case["id"], what, member, pcls.__name__, dname, pr[1]),
                              "detail": {"xml": _xml(p)}})
 
     try:
@@ -370,7 +398,7 @@ def run_case(case, ctx):
         uniq.setdefault(v["key"] + v["what"][:80], v)
     out = list(uniq.values())
     return {"outcome": "violations" if viol else "held", "nontrivial": True, "violations": out[:12], "counters": counters,
-            "sigs": sigs, "evals": counters.get("accept_direction", 0) + counters.get("reject_direction", 0) + counters.get("reject_direction_nested", 0) + counters.get("reject_direction_parsed_text", 0),
+            "sigs": sigs, "evals": counters.get("accept_direction", 0) + counters.get("reject_direction", 0) + counters.get("reject_direction_nested", 0) + counters.get("reject_direction_parsed_text", 0) + counters.get("reject_direction_decorated", 0),
             "obs": {"attributes": len(cls.c_attributes), "cardinality_entries": len(cls.c_cardinality)}}
 
 
